@@ -296,6 +296,21 @@ def name_class_cases(sylt, fnd):
     for bname, line in {"fn_annotated": "    h: fn int -> int = twice(h)\n", "int_annotated": "    h: int = succ(h)\n", "unannotated": "    h := succ(h)\n", "constant_fn_annotated": "    h: fn int -> int : twice(h)\n"}.items():
         rc, lua, out = common.compile_sy(sylt, {"main.sy": head2 + "start :: fn do\n" + line + "end\n"}); n += 1
         if rc == 0: fnd.report("accepted-unresolvable:own-initialiser(%s)" % bname, "%s: a local used in its own (non-lambda) initialiser is accepted" % line.strip(), {"main.sy": head2 + "start :: fn do\n" + line + "end\n"})
+    # `self` is a binder too: it is in scope inside a method literal only, not in the other fields of the same literal
+    sh = "Inner :: blob {\n    get: fn -> int,\n    me: int,\n}\nOuter :: blob {\n    id: int,\n    make: fn -> Inner,\n}\n"
+    inner_a = "Inner { get: fn -> int do ret 1 end, me: self.id }"; inner_b = "Inner { me: self.id, get: fn -> int do ret 1 end }"
+    outs = []
+    for inner in (inner_a, inner_b):
+        text = sh + "start :: fn do\n    o := Outer { id: 7, make: fn -> Inner do\n        ret %s\n    end }\n    print(o.make().me)\n    print(o.make().get())\nend\n" % inner
+        rc, lua, out = common.compile_sy(sylt, {"main.sy": text}); n += 1
+        if rc != 0 or lua is None: outs.append(("rejected", out[-160:].replace("\n", " "), text)); continue
+        events, outcome, it = runner.run_concrete(parse(lua)); outs.append(("prints", [e[1] for e in events if e[0] == "print"], text))
+    if outs[0][:2] != outs[1][:2] or outs[0][0] != "prints" or outs[0][1][:1] != [("int", 7)]:
+        fnd.report("self-scope:field-after-method", "`self` in a non-method field of a blob literal inside a method must be the enclosing method's instance whatever the order of the fields: method first gives %s, method last gives %s" % (outs[0][:2], outs[1][:2]), {"method_first.sy": outs[0][2], "method_last.sy": outs[1][2]})
+    for inner in (inner_a, inner_b):
+        text = sh + "start :: fn do\n    i := %s\n    print(i.me)\nend\n" % inner.replace("self.id", "self.me")
+        rc, lua, out = common.compile_sy(sylt, {"main.sy": text}); n += 1
+        if rc == 0: fnd.report("accepted-unresolvable:self-outside-a-method", "`self` in a non-method field of a blob literal that is not inside any method is accepted", {"main.sy": text})
     return n
 
 
